@@ -165,7 +165,7 @@ func processChunk(spec chunkSpec) *chunkResult {
 		go func() {
 			defer wg.Done()
 			for idx := range jobs {
-				sc := genScenario(idx, seedCtx.RandN(spec.Stream, idx), genOpts{maxEvents: spec.MaxEvents, natural: spec.Natural})
+				sc := genScenario(idx, seedCtx.RandN(spec.Stream, idx), genOpts{maxEvents: spec.MaxEvents, natural: spec.Natural, late: spec.Prop != "C01"})
 				r := newRun(sc, initialSnapshot(sc), 0, true, spec.Seed)
 				r.execute()
 				var restarts []restartOutcome
@@ -252,6 +252,8 @@ func account(a *chunkAcc, prop string, r *run, restarts []restartOutcome) {
 		st["log_entries"] += s.owed
 		st["entries_delivered"] += s.delivered
 		st["entries_exempt_too_long"] += s.exempt
+		st["entries_not_owed_channel_unseen_or_before_first_sight"] += s.notOwed
+		st["entries_owed_of_first_seen_channels"] += s.lateOwed
 		st["entries_applied_from_push"] += s.viaPush
 		st["entries_recovered_from_new_messages"] += s.recoveredMsg
 		st["entries_recovered_from_other_updates"] += s.recoveredOth
@@ -274,8 +276,15 @@ func account(a *chunkAcc, prop string, r *run, restarts []restartOutcome) {
 		if len(restarts) > 0 {
 			st["crash_traces"]++
 		}
+		co := r.chanOwed(r.trace)
 		for _, ro := range restarts {
 			st["crash_points_enumerated"]++
+			for _, o := range co {
+				if o.late && o.since >= 0 && o.since <= ro.t {
+					st["crash_points_after_a_channel_was_first_seen"]++
+					break
+				}
+			}
 			if ro.r2.problem != "" {
 				a.res.Problems = append(a.res.Problems, fmt.Sprintf("restart of scenario %d at trace index %d: %s", r.sc.Idx, ro.t, ro.r2.problem))
 				continue
@@ -369,7 +378,7 @@ func runMgr(c *mon.Ctx, prop, stream string, n, maxEvents int, natural bool, cra
 				}
 				c.Violate(crashSig(o.Class, o.Stderr), map[string]any{"case": map[string]any{"level": "mgr", "index": spec.From},
 					"class": o.Class, "stderr": o.Stderr,
-					"scenario": genScenario(spec.From, c.RandN(stream, spec.From), genOpts{maxEvents: maxEvents, natural: natural})})
+					"scenario": genScenario(spec.From, c.RandN(stream, spec.From), genOpts{maxEvents: maxEvents, natural: natural, late: prop != "C01"})})
 				c.Eval(1)
 				continue
 			}
@@ -462,6 +471,7 @@ func runC01(c *mon.Ctx) {
 
 func runC02(c *mon.Ctx) {
 	c.Rule("finite server logs mixing new messages, pts-bearing non-message updates (delete 1..3, read, edit), qts updates and channel updates for 1..2 tracked channels; " +
+		"in half of the logs one more channel that is NOT in the initial storage and is first seen through a pushed update or a difference's other_updates (owed from pts-pts_count of first sight); " +
 		"containers pushed with loss 0/20/60/100 %, duplicates, reordering window, seq-bearing containers, short messages, unknown senders, injected RPC failures; " +
 		"fake getDifference/getChannelDifference answer like Telegram (messages in new_messages, every other entry in other_updates with its real pts/pts_count/qts, " +
 		"sliced or not, too-long variants); recovery forced by updatesTooLong + updateChannelTooLong and decided by explicit barriers (no timers), repeated to a fixpoint; " +
@@ -481,7 +491,7 @@ func runC03(c *mon.Ctx) {
 	c.Rule("same kind of runs as C02 with a recording StateStorage: (a) online, at every SetState/SetPts/SetQts/SetChannelPts of every run: no log entry at or below the written position " +
 		"is still undelivered (exemption: range of a too-long response, from the moment the library reported it through its callback); (b) crash/restart: for EVERY storage write that " +
 		"changed the persistent image of the selected traces, a new Manager is started from the image of that moment against the same server, recovered with the C02 barrier, and " +
-		"deliveries before the crash plus deliveries after restart must cover the log; distinct non-trivial = (scenario class, write kind, recovered-after-restart bucket) of crash points " +
+		"deliveries before the crash plus deliveries after restart must cover the log (a channel first seen during the run is owed from the first main-loop write after the library looked it up); distinct non-trivial = (scenario class, write kind, recovered-after-restart bucket) of crash points " +
 		"whose restart had to recover at least one entry")
 	c.Assume("handler call entry = 'handed to the handler'; a crash is modelled as losing all memory and keeping exactly the storage image after the last completed write")
 	_, only, _ := replayCase(c)
